@@ -237,7 +237,7 @@ def run(ctx):
     runs.append(s)
     ctx.replayed += s.stats["behaviours"]
     rpath2 = os.path.join(ctx.scratch, "client-random.ndjson")
-    _random_sequences(rpath2, ctx.seed, 300 if quick else 3000)
+    _random_sequences(rpath2, ctx.seed, 150 if quick else 3000)
     runs.append(Run(ctx, binp, "client", "client-random", rpath2))
 
     r = ctx.tlc("ShardMapMC", "shardmap-steps.cfg" if quick else "shardmap-steps-thorough.cfg", label="steps")
@@ -253,7 +253,7 @@ def run(ctx):
         ctx.samples.append({"kind": "spec transition replayed on the real ApplyClusterChanges/StatusResource/shard manager",
                             "behaviour": json.loads(lines[len(lines) // 2])})
 
-    r = ctx.tlc("ShardMapMC", "shardmap-runs.cfg", simulate="num=%d" % (30 if quick else 200), depth=12, workers=1, label="runs")
+    r = ctx.tlc("ShardMapMC", "shardmap-runs.cfg", simulate="num=%d" % (20 if quick else 200), depth=12, workers=1, label="runs")
     rpath = os.path.join(ctx.scratch, "runs.ndjson")
     n = _export(r, "RUN", rpath, every=2 if quick else 4)
     if n == 0:
@@ -262,7 +262,7 @@ def run(ctx):
     runs.append(s)
     ctx.replayed += s.stats["behaviours"]
 
-    r = ctx.tlc("ShardMapMC", "shardmap-runs-eager.cfg", simulate="num=%d" % (30 if quick else 200), depth=12, workers=1, label="runs-eager")
+    r = ctx.tlc("ShardMapMC", "shardmap-runs-eager.cfg", simulate="num=%d" % (20 if quick else 200), depth=12, workers=1, label="runs-eager")
     epath = os.path.join(ctx.scratch, "runs-eager.ndjson")
     n = _export(r, "RUN", epath, every=7)
     if n == 0:
